@@ -39,6 +39,17 @@ def check_roundtrip(name, value, context):
     pair = line[:first_attr] if first_attr >= 0 else line
     if ";" in pair:
         v.append("';' inside the pair %r" % pair)
+    if context == "fields":
+        # one Cookie header FIELD per pair (HTTP/2 clients may do that; RFC 9113 8.2.3 has them combined with "; ")
+        try:
+            from baize.asgi import Request as ARequest
+            from native.harness import asgi_scope
+            got = ARequest(asgi_scope("GET", "/", [("Cookie", "x=1"), ("Cookie", pair), ("Cookie", "y=2")])).cookies
+        except Exception as e:  # noqa
+            return v + ["request.cookies (separate fields) raised %r" % e]
+        if got.get(name) != value or got.get("x") != "1" or got.get("y") != "2":
+            v.append("round trip (one Cookie field per pair): sent %r, request sees %r" % (value, dict(got)))
+        return v
     header = {"alone": pair, "middle": "x=1; " + pair + "; y=2", "dup_before": name + "=old; " + pair}[context]
     try:
         got = request_cookies(header)
@@ -121,7 +132,7 @@ def bounded(tier, seed):
     for name in names:
         vals = values if name == "n" else values[:257] + values[-16:]
         for value in vals:
-            for context in (("alone", "middle", "dup_before") if (name == "n" and len(value) <= 1) or len(value) > 2 else ("alone",)):
+            for context in (("alone", "middle", "dup_before", "fields") if (name == "n" and len(value) <= 1) or len(value) > 2 else ("alone",)):
                 evals += 1
                 v = check_roundtrip(name, value, context)
                 distinct.add((name, value, context))
@@ -137,6 +148,6 @@ def bounded(tier, seed):
             failures.append({"inputs": {"kind": "tz", "tz": tz}, "violated": v})
     return {"evaluations": evals, "distinct_nontrivial": len(distinct), "failures": failures, "samples": samples,
             "rule": "token names x all values of length <= 1 over the 256 Latin-1 code points, %s, structured ones; sent back alone, "
-                    "between two other cookies and after an older cookie of the same name; Expires/Max-Age/delete_cookie "
+                    "between two other cookies, after an older cookie of the same name and as one Cookie header field per pair (ASGI); Expires/Max-Age/delete_cookie "
                     "probed in subprocesses under several TZ values" % ("all 65536 values of length 2" if tier == "thorough" else "a seeded sample of 3000 values of length 2"),
             "exhaustive": False}
